@@ -661,7 +661,16 @@ def rule_sumdist(run):
         k = 'horizontal connections :: gravity cosine of the centre-to-centre line, first to second block'
         if r1 == 'equal' and r2 == 'equal': run.ok(k, where=ah.where(dc[0]))
         elif 'different' in (r1, r2): run.violated(k, 'd = `%s`, dircos = `%s`' % (norm(dd[0].value), norm(dc[0].value)), where=ah.where(dc[0]))
-        else: run.unknown(k, 'd = `%s`, dircos = `%s`' % (norm(dd[0].value), norm(dc[0].value)), where=ah.where(dc[0]))
+        else:
+            # cosine = (d . tilt) / |d| : the vector normalised must be the vector projected
+            v_ = dc[0].value
+            dots = [c for c in ast.walk(v_) if isinstance(c, ast.Call) and call_name(c) == 'dot' and len(c.args) == 2]
+            nrms = [c for c in ast.walk(v_) if isinstance(c, ast.Call) and call_name(c) == 'norm' and len(c.args) == 1]
+            if r2 == 'equal' and isinstance(v_, ast.BinOp) and isinstance(v_.op, ast.Div) and len(dots) == 1 and len(nrms) == 1 and \
+               isinstance(nrms[0].args[0], ast.Name) and norm(nrms[0].args[0]) not in [norm(a) for a in dots[0].args]:
+                run.violated(k, 'dircos = `%s`: the projection of `%s` on the gravity direction is divided by the length of another vector, `%s` - that is '
+                             'not the cosine of the centre-to-centre line' % (norm(v_), norm(dots[0].args[0]), norm(nrms[0].args[0])), where=ah.where(dc[0]), robust=True)
+            else: run.unknown(k, 'd = `%s`, dircos = `%s`' % (norm(dd[0].value), norm(dc[0].value)), where=ah.where(dc[0]))
 
 
 def rule_nonetest(run):
